@@ -109,6 +109,39 @@ def rand_crystal_spec(rng, dim=None, kind=None, norbits=None, nchem=1, maxatoms=
     raise RuntimeError('no crystal generated')
 
 
+def rand_noncentro_spec(rng, mind=0.25):
+    """Random 3-D crystal WITHOUT inversion (one species, 3-5 atoms): P1 (general positions in a triclinic cell), Pm, Pmm2, P4, P3."""
+    kinds = ('P1', 'Pm', 'Pmm2', 'P4', 'P3')
+    for attempt in range(300):
+        kind = kinds[int(rng.integers(len(kinds)))]
+        if kind == 'P1':
+            latt = lattice('tric', rng)
+            pts = [rng.uniform(size=3) for _ in range(int(rng.integers(3, 5)))]
+        elif kind == 'Pm':
+            latt = lattice('mono', rng)   # c perpendicular to the (sheared) a-b plane: mirror z -> -z
+            pts = [np.array([rng.uniform(), rng.uniform(), 0. if rng.uniform() < 0.6 else 0.5]) for _ in range(3)]
+        elif kind == 'Pmm2':
+            latt = lattice('ortho', rng)
+            sites = [(0., 0.), (.5, 0.), (0., .5), (.5, .5)]
+            pick = rng.permutation(4)[:3]
+            pts = [np.array([sites[k][0], sites[k][1], rng.uniform()]) for k in pick]
+        elif kind == 'P4':
+            latt = lattice('tetP', rng)
+            x, y, z = rng.uniform(0.08, 0.42), rng.uniform(0.08, 0.42), rng.uniform()
+            pts = [np.array(v) % 1. for v in ((x, y, z), (-y, x, z), (-x, -y, z), (y, -x, z))] + [np.array([0., 0., rng.uniform()])]
+        else:
+            latt = lattice('hex', rng)
+            x, y, z = rng.uniform(0.1, 0.9), rng.uniform(0.1, 0.9), rng.uniform()
+            pts = [np.array(v) % 1. for v in ((x, y, z), (-y, x - y, z), (-x + y, -x, z))] + [np.array([0., 0., rng.uniform()])]
+        if abs(np.linalg.det(latt)) < 0.2: continue
+        if mindist(latt, pts) < mind: continue
+        c = crystal.Crystal(latt, [pts])
+        if len(c.basis[0]) != len(pts): continue
+        if any(np.allclose(g.cartrot, -np.eye(3)) for g in c.G): continue
+        return {'latt': latt, 'basis': [pts], 'kind': kind, 'dim': 3}
+    raise RuntimeError('no non-centrosymmetric crystal generated')
+
+
 def make_crystal(spec, **kw):
     return crystal.Crystal(np.array(spec['latt']), [[np.array(u) for u in lst] for lst in spec['basis']], **kw)
 
